@@ -38,7 +38,7 @@ func main() {
 	fs.StringVar(&o.prop, "prop", "", "property id (Cxx)")
 	fs.StringVar(&o.tier, "tier", "quick", "quick|thorough")
 	fs.IntVar(&o.timeout, "timeout", 0, "per-query timeout in seconds (default 10 quick / 60 thorough)")
-	fs.IntVar(&o.jobs, "jobs", 14, "parallel solver jobs")
+	fs.IntVar(&o.jobs, "jobs", 16, "parallel solver jobs")
 	fs.StringVar(&o.funcs, "func", "", "restrict to functions whose key contains this string")
 	fs.BoolVar(&o.keep, "keep", false, "keep all query files")
 	fs.BoolVar(&o.verbose, "v", false, "verbose")
@@ -50,9 +50,9 @@ func main() {
 		o.tier = t
 	}
 	if o.timeout == 0 {
-		o.timeout = 10
+		o.timeout = 30
 		if o.tier == "thorough" {
-			o.timeout = 60
+			o.timeout = 90
 		}
 	}
 	switch cmd {
@@ -174,6 +174,14 @@ func runCheck(o *Options) int {
 	}
 	qdir := filepath.Join(o.verif, "work", o.prop)
 	os.RemoveAll(qdir)
+	if o.tier != "thorough" {
+		// obligations listed as not claimed are not attempted in the quick tier
+		for _, ob := range mine {
+			if _, skip := loadUnprovedCached(o.verif)[ob.Name]; skip {
+				ob.Result = SolverResult{Status: "not-attempted", Backend: "none"}
+			}
+		}
+	}
 	v.discharge(mine, qdir, o.timeout, o.tier == "thorough", o.jobs)
 	return report(o, p, v, keys, mine, start)
 }
@@ -201,4 +209,13 @@ func sortedSet(m map[string]bool) []string {
 	}
 	sort.Strings(out)
 	return out
+}
+
+var unprovedCache map[string]string
+
+func loadUnprovedCached(verif string) map[string]string {
+	if unprovedCache == nil {
+		unprovedCache = loadUnproved(verif)
+	}
+	return unprovedCache
 }
